@@ -36,7 +36,7 @@ ASSUMPTIONS = [
 ]
 STATIC_SAMPLES = ["é & $a_1$ http://a.b/c_d"]
 
-LETTERS = ["a", "B", "1", " "]
+LETTERS = ["a", "B", "1", " ", "\xa0", "\t"]
 ACCENTED = ["é", "ü", "ñ", "ç", "ø", "ß", "Å", "æ"]
 PUNCT = [".", ",", ";", ":", "-", "(", ")", "!", "?", "'", "/", "|", "@", "*", "+", "=", "[", "]"]
 SPECIAL = ["&", "%", "#", "_", "$", "{", "}", "~", "\\", "<", ">"]
@@ -349,6 +349,24 @@ def check_big(n, acc):
 def check_contain(acc):
     for enc in (True, False):
         for ip in (True, False):
+            # an entry with ONE field whose value has several name parts, the failing one last
+            for failing in (["BOOM"], ["ok", "BOOM"], ["ok", "ok2", "BOOM"]):
+                npv = NameParts(first=["Jan"], von=["van"], last=list(failing))
+                e1 = Entry("a", "solo", [Field("author", npv)], 0, "@a{solo}")
+                m1 = LatexEncodingMiddleware(encoder=Boom(), allow_inplace_modification=ip) if enc else LatexDecodingMiddleware(decoder=Boom(), allow_inplace_modification=ip)
+                acc.trace()
+                acc.case(nontrivial_key=("contain-solo", enc, ip, len(failing)))
+                try:
+                    b = m1.transform(Library([e1])).blocks[0]
+                except Exception as ex:
+                    acc.violation({"oracle": "conversion_failure_contained", "exception": type(ex).__name__}, {"case": {"contain": "solo name parts", "encoder": enc, "inplace": ip}, "observed": repr(ex), "expected": "a middleware-error block"})
+                    continue
+                inner = b.ignore_error_block if isinstance(b, MiddlewareErrorBlock) else None
+                if not (isinstance(inner, Entry) and isinstance(inner.fields[0].value, NameParts) and inner.fields[0].value.last[-1] == "BOOM" and len(inner.fields[0].value.last) == len(failing)):
+                    acc.violation(
+                        {"oracle": "error_block_holds_original_entry", "where": "name part beyond the field count"},
+                        {"case": {"contain": "solo name parts", "encoder": enc, "inplace": ip, "last": failing}, "observed": repr(b)[:200], "expected": "MiddlewareErrorBlock holding the entry with all name parts"},
+                    )
             for where in ("first_field", "last_field", "name_part", "string", "none"):
                 np = NameParts(first=["A", "BOOM" if where == "name_part" else "B"], last=["C"])
                 fields = [
